@@ -107,6 +107,11 @@ pub enum Mutn {
     Enum(String),
     /// unknown entry inserted into a lenient list at index
     ListEntry(String, usize, usize),
+    /// the algorithm identifier n at path replaced by a number outside the 32-bit range that is
+    /// congruent to it modulo 2^64 or 2^32 (how 0: 2^64 + n as a JSON integer, 1: the same as a
+    /// string, 2: n - 2^32, 3: n + 2^32, 4: 2^64 + n as a float).  Whatever these are, they are not
+    /// the registered identifier n: the entry is unknown (dropped) or the document is refused
+    AlgWrap(String, u8),
     /// the string at path spelled with JSON escapes (how 0: every character as \uXXXX, 1: the first
     /// and last character only, 2: an escaped solidus and a \u-escaped first letter in upper-case hex) -
     /// the same JSON value, which a parser cannot hand out as a slice of its input
@@ -284,6 +289,35 @@ fn apply(doc: &mut Value, exp: &mut Value, m: &Mutn) -> bool {
             remove_path(exp, path);
             true
         }
+        Mutn::AlgWrap(path, how) => {
+            let Some(n) = doc.pointer(path).and_then(|v| v.as_i64()) else { return false };
+            let wide: i128 = match how {
+                0 | 1 | 4 => (1i128 << 64) + i128::from(n),
+                2 => i128::from(n) - (1i128 << 32),
+                _ => i128::from(n) + (1i128 << 32),
+            };
+            let v = match how {
+                1 => json!(wide.to_string()),
+                4 => json!(wide as f64),
+                _ => {
+                    if let Ok(u) = u64::try_from(wide) {
+                        json!(u)
+                    } else if let Ok(i) = i64::try_from(wide) {
+                        json!(i)
+                    } else {
+                        return false;
+                    }
+                }
+            };
+            *doc.pointer_mut(path).unwrap() = v;
+            // the expected equivalent: the list without that entry
+            if let Some((list, _)) = path.trim_end_matches("/alg").rsplit_once('/') {
+                if let Some(Value::Array(a)) = exp.pointer_mut(list) {
+                    a.retain(|e| e.get("alg").and_then(|x| x.as_i64()) != Some(n));
+                }
+            }
+            true
+        }
         Mutn::Escaped(path, how) => match doc.pointer_mut(path) {
             Some(Value::String(st)) if !st.is_empty() && !st.starts_with(ESC_MARK) => {
                 *st = format!("{ESC_MARK}{how}{st}");
@@ -348,6 +382,7 @@ fn mut_class(m: &Mutn) -> String {
         Mutn::Numeric(p, h) => format!("numeric:{}:{}", p.rsplit('/').next().unwrap_or(""), ["number", "string", "float", "float-string"][*h as usize % 4]),
         Mutn::Unknown(_, _, k) => format!("unknown-member:{}", ["scalar", "object", "array"][*k as usize % 3]),
         Mutn::Enum(p) => format!("unknown-enum:{}", p.rsplit('/').next().unwrap_or("")),
+        Mutn::AlgWrap(p, h) => format!("alg-out-of-range:{}:{}", p.rsplit('/').nth(1).unwrap_or(""), ["2^64+n", "2^64+n-string", "n-2^32", "n+2^32", "2^64+n-float"][*h as usize % 5]),
         Mutn::Escaped(p, h) => format!("escaped-string:{}:{}", p.rsplit('/').next().unwrap_or(""), ["all", "ends", "solidus-and-first"][*h as usize % 3]),
         Mutn::ListEntry(p, w, _) => {
             let list = p.rsplit('/').next().unwrap_or("");
@@ -394,6 +429,8 @@ pub fn eval(c: &Case) -> (Vec<Finding>, String) {
     }
     match parse_debug(&c.kind, &render(&doc)) {
         Err(p) => bad(&format!("kind=panic/{key_class}"), format!("parse panicked: {p}")),
+        // a number beyond every integer width the member could have may be refused outright
+        Ok(Err(_)) if class.starts_with("alg-out-of-range") && c.muts.len() == 1 => {}
         Ok(Err(e)) => bad(&format!("kind=parse-fails/{key_class}"), format!("{class}: {e}")),
         Ok(Ok(got)) => {
             if got.starts_with("ROUTES-DISAGREE") {
@@ -429,6 +466,11 @@ fn single_mutations(kind: &str) -> Vec<Mutn> {
     }
     for p in enum_paths(kind) {
         v.push(Mutn::Enum(p.into()));
+    }
+    for p in numeric_paths(kind).into_iter().filter(|p| p.ends_with("/alg")) {
+        for how in 0..5u8 {
+            v.push(Mutn::AlgWrap(p.into(), how));
+        }
     }
     let mut sp = vec![];
     string_paths(&canonical(kind), "", &mut sp);
@@ -1007,7 +1049,7 @@ pub fn run(ctx: &Ctx) -> Result<Run, String> {
     }
     let mut run = Run::from_stats(
         "exploration",
-        "creation and request options: all 256 presence patterns of the optional members x one presentation change at a time (each binary member as array / base64url +- padding / base64 +- padding / base64url with non-zero unused trailing bits +- padding, timeout and alg as number / numeric string / integral float / float string, an unknown scalar/object/array member at every position of every object, an unknown string for every enumeration, every string value spelled with JSON escapes (all characters, first and last, an escaped solidus plus upper-case hex) - the same JSON value, an unknown entry at every index of every lenient list incl. pubKeyCredParams entries with an unknown alg in every member order and with trailing unknown members); thorough: all pairs of changes on the full document. Every document is parsed through three routes (borrowed text, an owned serde_json::Value, a byte reader) which must agree (a disagreement is a finding of its own). Oracle: Debug of the parsed value equals that of the canonical presentation (unknown enum = member absent, unknown list entry = entry absent). Long binary members: a challenge of 255..100000 bytes in each of the five presentations parses to the same value. Named unknown members: every identifier-like string literal of the types and client crates (and near-miss spellings of the declared names) as the name of an undeclared member of every object, with seven value shapes, and standing in for each declared member of that object (it must stay ignored; the one spelling the pinned tree documents, allowList, is exempt). Plus base64url encode/decode identity on all byte strings up to length 2 (3 thorough) and patterned lengths 4..64 against an own RFC 4648 codec; every credential emitted by 72 register+authenticate ceremonies re-parsed from its JSON; CollectedClientData member order for 3 extra-data types x 16 orders of 0..3 unknown members x crossOrigin x type, and the client data emitted by Client::register/authenticate for five caller-supplied extras with a standard member's name at each position. Non-trivial = distinct case with at least one presentation change / non-empty input",
+        "creation and request options: all 256 presence patterns of the optional members x one presentation change at a time (each binary member as array / base64url +- padding / base64 +- padding / base64url with non-zero unused trailing bits +- padding, timeout and alg as number / numeric string / integral float / float string, an unknown scalar/object/array member at every position of every object, an unknown string for every enumeration, every algorithm identifier replaced by a number congruent to it modulo 2^64 / 2^32 (integer, string, float; dropped like any unknown identifier, or refused), every string value spelled with JSON escapes (all characters, first and last, an escaped solidus plus upper-case hex) - the same JSON value, an unknown entry at every index of every lenient list incl. pubKeyCredParams entries with an unknown alg in every member order and with trailing unknown members); thorough: all pairs of changes on the full document. Every document is parsed through three routes (borrowed text, an owned serde_json::Value, a byte reader) which must agree (a disagreement is a finding of its own). Oracle: Debug of the parsed value equals that of the canonical presentation (unknown enum = member absent, unknown list entry = entry absent). Long binary members: a challenge of 255..100000 bytes in each of the five presentations parses to the same value. Named unknown members: every identifier-like string literal of the types and client crates (and near-miss spellings of the declared names) as the name of an undeclared member of every object, with seven value shapes, and standing in for each declared member of that object (it must stay ignored; the one spelling the pinned tree documents, allowList, is exempt). Plus base64url encode/decode identity on all byte strings up to length 2 (3 thorough) and patterned lengths 4..64 against an own RFC 4648 codec; every credential emitted by 72 register+authenticate ceremonies re-parsed from its JSON; CollectedClientData member order for 3 extra-data types x 16 orders of 0..3 unknown members x crossOrigin x type, and the client data emitted by Client::register/authenticate for five caller-supplied extras with a standard member's name at each position. Non-trivial = distinct case with at least one presentation change / non-empty input",
         true,
         stats,
     );
